@@ -148,12 +148,20 @@ def script(spec):
             lines.append('parse_buf 0 %s' % hx(insert(toks, k, (txt, nl))))
             lines.append('get 0 comment %s 0' % hx(toks[k][1]))
             lines.append('get 0 size %s 0' % hx(toks[k][1]))
+            lines.append('vhash 0 1')
             lines.append('init 1 %d %d' % (sid, F_COMMENTS))
             lines.append('print_parse 0 1')
             lines.append('get 1 comment %s 0' % hx(toks[k][1]))
             lines.append('vhash 1')
             lines.append('free 1')
             lines.append('free 0')
+            # reference: the text without the comment, the annotation put on that one option through the API
+            lines.append('init 2 %d %d' % (sid, F_COMMENTS))
+            lines.append('parse_buf 2 %s' % hx(join(toks)))
+            if body is not None:
+                lines.append('setcomment 2 %s %s' % (hx(toks[k][1]), hx(body)))
+            lines.append('vhash 2 1')
+            lines.append('free 2')
     return '\n'.join(lines)
 
 
@@ -201,11 +209,11 @@ def judge(spec, events, death):
     # annotation probes
     for k in spec['ann']:
         for txt, nl, body in ANN:
-            if pos + 7 > len(evs):
+            if pos + 11 > len(evs):
                 v.bad('harness:short-log', 'annotation events missing')
                 return v
-            note, r, c0, sz0, printed, rp, c1, h1 = evs[pos:pos + 8]
-            pos += 8
+            note, r, c0, sz0, ha, printed, rp, c1, h1, rref, href = evs[pos:pos + 11]
+            pos += 11
             if r['rc'] != 0:
                 v.bad('annotation:rejected:%s' % ('empty' if body is None else 'comment'), 'comment %r before %r makes the text rejected' % (txt, toks[k][1]))
                 continue
@@ -215,6 +223,10 @@ def judge(spec, events, death):
             got = unhx(c0['v'])
             if got != body:
                 v.bad('annotation:not-attached', 'comment %r immediately before %r: annotation is %r, expected %r' % (txt, toks[k][1], got, body))
+                continue
+            if rref['rc'] == 0 and ha['h'] != href['h']:
+                v.bad('annotation:elsewhere-too', 'comment %r immediately before %r: values and annotations of the whole tree differ from the uncommented text with that one annotation set through the API '
+                      '(the comment reached another option as well, or changed a value); text %r' % (txt, toks[k][1], insert(toks, k, (txt, nl))[:300]))
                 continue
             out = unhx(printed['out'])
             if ('/* %s */' % body) not in out:
